@@ -17,7 +17,14 @@ def build(repo, tier, seed):
     h_syn, h_und = history_induction()
     syn = syn + h_syn
     und = und + h_und
-    return {"vcs": vcs, "syntactic": syn, "undecided": und, "functions": fns, "hashes": hashes, "level": "proof", "witness": witness,
+    # a backend that lies in exists() lets Cached.validate pass for a dataset that cannot be evaluated; what keeps the outcome equal to the
+    # memo-free one above a cached member is coalesce falling through on ANY failure of the chosen member: the C05 specification of Coalesce
+    from . import classlaws
+    rc = classlaws.run(repo, ("C05",), classes=["Coalesce"])
+    extra_results = rc["results"]
+    und = und + rc["undecided"]
+    hashes.update(rc["hashes"])
+    return {"results": extra_results, "group_hashes": rc["group_hashes"], "vcs": vcs, "syntactic": syn, "undecided": und, "functions": fns + rc["functions"], "hashes": hashes, "level": "proof", "witness": witness,
             "trusted_base": ["backend contract B-sound with exists() unconstrained (contracts/cache_model.py): the fault assignment (miss, forget, lie-exists, "
                              "fail-get, fail-read-back) is a symbolic oracle per call, so every assignment over histories of any length is covered by the one-step obligations"],
             "assumptions": ["the backend raises only CacheGetFailure from get and nothing from exists/set (the fault list of the statement)",
